@@ -750,7 +750,7 @@ def c20_check(prop, tier, seed, replay):
                           "id shared by the task logs), server-side probe after each of the four unsubscribe variants; send buffer run under "
                           "tokio's paused clock on local_client_wrapper with a recording WbApi, observations explained by Trace_Buffer"}
     return {"coverage": cov, "known": known_seen, "violations": violations,
-            "assumptions": ["unix socket transport only (tcp.rs shares the connection loop; ws not driven)",
+            "assumptions": ["the library connects over the unix socket in half of the scenarios, over TCP and over WebSocket in a quarter each",
                             "acquire_lock, spub and the last-will/grave-goods helpers of the library are not driven",
                             "the send buffer is observed on local_client_wrapper (same connection loop, in-process transport)",
                             "values of `deleted` events of plain subscriptions are not observable through the library (Option::None)"]}
